@@ -347,6 +347,10 @@ func (p *policy) allocatePool(container cache.Container, poolHint string) (Grant
 		offer *libmem.Offer
 	)
 
+	if _, ok := container.GetPod(); !ok {
+		return nil, policyError("can't find pod of container %s", container.PrettyName())
+	}
+
 	request := newRequest(container, p.memAllocator.Masks().AvailableTypes())
 
 	if p.root.FreeSupply().ReservedCPUs().IsEmpty() && request.CPUType() == cpuReserved {
